@@ -574,6 +574,23 @@ def probes_scalar(ctx, rng, cfgs):
             o = np.asarray(nz.normalize(x), dtype=float)
             o1 = np.asarray(nz.normalize(x[1:2]), dtype=float)
         ctx.count((name, "probe-nan"), hist=dict(probe="nan policy"))
+        # 0-d data (Python floats, as Krige.get_mean passes them) follow the same policy as one-element arrays
+        for j, v in enumerate(x):
+            for fn in ("normalize", "derivative", "denormalize"):
+                with Quiet():
+                    ref = float(np.asarray(getattr(nz, fn)(np.array([v])), dtype=float)[0])
+                    try:
+                        got = np.asarray(getattr(nz, fn)(float(v)), dtype=float)
+                    except Exception as e:
+                        ctx.violation("probe: 0-d datum", "%s(lmbda=%r).%s(%r) raised %s: %s (a one-element array gives %r)" % (
+                            name, lam, fn, float(v), type(e).__name__, e, ref),
+                            dict(kind="scalar", normalizer=name, lmbda=C.fhex(lam), shift=C.fhex(sh), fn=fn, data=[C.fhex(v)], zero_d=True),
+                            key="zero-d:raise")
+                        continue
+                if got.shape != () or not C.bit_equal(got, ref):
+                    ctx.violation("probe: 0-d datum", "%s(lmbda=%r).%s(%r) = %r, a one-element array gives %r" % (name, lam, fn, float(v), got.tolist(), ref),
+                                  dict(kind="scalar", normalizer=name, lmbda=C.fhex(lam), shift=C.fhex(sh), fn=fn, data=[C.fhex(v)], zero_d=True),
+                                  key="zero-d:value")
         exp_nan = np.array([True, False, np.isfinite(nr[0]), np.isfinite(nr[0]), True])
         if (np.isnan(o) != exp_nan).any() or not (o[1] == o1[0]):
             ctx.violation("probe: NaN policy of _check_input", "%s(lmbda=%r): normalize(%r) = %r" % (name, lam, x.tolist(), o.tolist()),
